@@ -57,7 +57,9 @@ fn check_u16(w: u16, acc: &mut Acc) {
         ("dir", FileMode::dir(w), 0o040000),
         ("symbolic_link", FileMode::symbolic_link(w), 0o120000),
     ] {
-        if m2.permissions() != (w & PERM_MASK) || m2.raw_mode() != (ty | (w & PERM_MASK)) || m2.file_type() != ty {
+        // the value itself (public fields, ==, Debug), not only what the accessors make of it
+        let same = FileMode::from(ty | (w & PERM_MASK));
+        if m2.permissions() != (w & PERM_MASK) || m2.raw_mode() != (ty | (w & PERM_MASK)) || m2.file_type() != ty || m2 != same || format!("{:?}", m2) != format!("{:?}", same) {
             acc.viol(
                 Violation::new("u16", format!("FileMode::{}({:#o}) = {:?}", name, w, m2), case()).sig("clause", "ctor-mask"),
             );
